@@ -279,6 +279,8 @@ def GoodEv (W : FVal → Prop) : Ev → Prop
   | .wire x => W x
   | .disp x => InPct x
   | .ret x => InPct x
+  | .tried x => W x
+  | .late x => W x
   | .raised e => e = .protocol
   | .logged _ => True
 
@@ -467,6 +469,32 @@ theorem raop_after_set (h : RoundingLaws rnd) (s : Raop) {l : FVal} (hl : InPct 
     · exact hl
     · exact hg
     · exact hp
+
+/-- the deferred hand-over at stream start keeps the invariant and sends only valid levels -/
+theorem raop_after_deferred (h : RoundingLaws rnd) {s : Raop} (hs : RaopInv s) {l : FVal} (hl : InPct l) :
+    RaopInv (Raop.deferred rnd s l).1 ∧ ∀ ev ∈ (Raop.deferred rnd s l).2, GoodEv GoodDbfs ev := by
+  obtain ⟨d, hd, hg⟩ := pctToDbfsF_ok h hl
+  by_cases ht : truthyF l = true
+  · have he : Raop.deferred rnd s l = (⟨some d⟩, [.recv l, .tried d, .late d]) := by
+      simp only [Raop.deferred, hd, ht, if_true, List.cons_append, List.nil_append]
+    rw [he]
+    refine ⟨?_, ?_⟩
+    · intro d' hd'; cases hd'; exact goodDbfs_ctxOk hg
+    · intro ev hev
+      simp only [List.mem_cons, List.not_mem_nil, or_false] at hev
+      rcases hev with rfl | rfl | rfl
+      · exact hl
+      · exact hg
+      · exact hg
+  · have he : Raop.deferred rnd s l = (s, [.recv l, .tried d]) := by
+      simp only [Raop.deferred, hd, ht]; rfl
+    rw [he]
+    refine ⟨hs, ?_⟩
+    intro ev hev
+    simp only [List.mem_cons, List.not_mem_nil, or_false] at hev
+    rcases hev with rfl | rfl
+    · exact hl
+    · exact hg
 
 theorem mrp_setVolume_good (h : RoundingLaws rnd) {l : FVal} (hl : InPct l) :
     ∀ ev ∈ Mrp.setVolume rnd l, GoodEv InUnit ev := by
